@@ -110,7 +110,7 @@ _METHODS = {}      # one Method per source text: calls of one kernel with differ
 
 
 class Item:
-    def __init__(self, name, src, args, S):
+    def __init__(self, name, src, args, S, omits_parameter=False):
         self.name, self.src, self.args = name, src, args
         if src not in _METHODS:
             _METHODS[src] = kernels.define(src)["main"]
@@ -121,6 +121,11 @@ class Item:
         self.usable = tc.ops_in_domain(self.ops)
         st, r = tc.run_impl(self.method, args, S)
         self.fresh = tc.abstract_path(r) if st == "ok" else None
+        self.fresh_error = None if st == "ok" else str(r).split(":")[0]        # the class of the exception a fresh instance raises
+        if omits_parameter:
+            # a call that leaves a parameter out is refused by the interpreter (Python defaults are not part of a kernel's calling
+            # convention); the model sees a failing call
+            self.native_failed, self.ops = True, []
 
     def ops_coq(self, gt):
         s = [tc.op_coq(o, gt) for o in self.ops] + (["OFail"] if self.native_failed else [])
@@ -155,6 +160,9 @@ def run_history(ctx, items, hist, S, label):
                         seen_ids[key] = pos
         else:
             ap = None
+        if ap is None and it.fresh is None and str(r).split(":")[0] != it.fresh_error:
+            ctx.fail({"kind": "differs-from-fresh-instance", "call": it.name, "prefix": [items[j].name for j in hist[:pos]], "what": "exception class"}, rep,
+                     f"call {pos} ({it.name}) after {[items[j].name for j in hist[:pos]]} raises {str(r).split(':')[0]} but a fresh instance raises {it.fresh_error}")
         if ap != it.fresh:
             ctx.fail({"kind": "differs-from-fresh-instance", "call": it.name, "prefix": [items[j].name for j in hist[:pos]]}, rep,
                      f"call {pos} ({it.name}) after {[items[j].name for j in hist[:pos]]} returned "
@@ -228,6 +236,11 @@ def run(ctx):
         ctx.hist("typed_item_outcome", f"{it.name}: {'path' if it.fresh is not None else 'raises'}")
         if it.fresh is None or not it.usable:
             ctx.obligation("the typed-operand kernels trace on a fresh instance", False, it.name)
+    # two DIFFERENT kernels of one name whose trailing parameter has a default, called without it (refused by a fresh instance)
+    dflt = [Item(f"default-{v}", f"@tweezer\ndef main(x: float, y: float = {v}):\n    g = grid.from_positions([x], [y])\n    action.set_loc(g)\n    action.move(grid.shift(g, 1.0, y))\n",
+                 (0.5,), S, omits_parameter=True) for v in ("5.0", "1.0")]
+    for h in itertools.permutations(range(2), 2):
+        cases.append(run_history(ctx, dflt + [fixed[0]], list(h) + [2, h[0]], S, "same-name-defaults"))
     typed_pool = typed + [fixed[3], fixed[4]]
     for n in (2, 3):
         for hist in itertools.permutations(range(len(typed_pool)), n):
